@@ -581,12 +581,12 @@ func runRace() {
 		v    interface{}
 		desc string
 		ref  []byte
-		nd   *ast.Node
+		aref []byte
 	}
 	var jobs []job
 	for i := 0; i < 48; i++ {
 		v, desc := mkValue(r)
-		ref, err := sonic.Marshal(v)
+		ref, err := sonic.ConfigStd.Marshal(v) // sorted map keys: the reference is deterministic
 		if err != nil || len(ref) > 1<<16 {
 			continue
 		}
@@ -598,8 +598,7 @@ func runRace() {
 		if err != nil {
 			continue
 		}
-		_ = aref
-		jobs = append(jobs, job{v, desc, ref, &nd})
+		jobs = append(jobs, job{v, desc, ref, aref})
 	}
 	var bad int64
 	var mu sync.Mutex
@@ -616,7 +615,7 @@ func runRace() {
 				var err error
 				op := "sonic.Marshal"
 				if rr.Bool() {
-					out, err = sonic.Marshal(j.v)
+					out, err = sonic.ConfigStd.Marshal(j.v)
 				} else {
 					op = "ast.Node.MarshalJSON(loaded)"
 					n2 := ast.NewRaw(string(j.ref))
@@ -627,10 +626,14 @@ func runRace() {
 				if err != nil || out == nil {
 					continue
 				}
-				if op == "sonic.Marshal" && !bytes.Equal(out, j.ref) {
+				want := j.ref
+				if op != "sonic.Marshal" {
+					want = j.aref
+				}
+				if !bytes.Equal(out, want) {
 					mu.Lock()
 					bad++
-					fail("concurrent-corruption", fmt.Sprintf("%s of %s returned bytes that differ from the sequential reference at %d (another goroutine wrote into the buffer)", op, j.desc, firstDiff(out, j.ref)), nil, *seed, it)
+					fail("concurrent-corruption", fmt.Sprintf("%s of %s returned bytes that differ from the sequential reference at %d (another goroutine wrote into the buffer)", op, j.desc, firstDiff(out, want)), nil, *seed, it)
 					mu.Unlock()
 				}
 				held = append(held, [2][]byte{out, append([]byte{}, out...)})
